@@ -85,7 +85,7 @@ const RP: &str = "example.com";
 pub fn cases(tier: Tier) -> Vec<Case> {
     let mut v = vec![];
     for c in super::c04::cases() {
-        if c.level != 0 || c.arc_mutex || c.ext != 0 || c.wire != 0 || c.flip || c.protocol_only {
+        if c.level != 0 || c.arc_mutex || c.ext != 0 || c.wire != 0 || c.flip || c.protocol_only || c.outcome > 10 {
             continue;
         }
         // quick: the presence capability only shows in get_info; keep one value for the ceremonies
@@ -211,9 +211,26 @@ fn norm_log(ev: Vec<Event>) -> Vec<String> {
         .collect()
 }
 
+// The doors to the trait: a fully qualified call on the concrete type, a generic bound, a
+// `&mut dyn`, a `Box<dyn Ctap2Api + Send + Sync>` (method lookup on a pointer type finds the
+// pointer's own impl first, were there one).  get_info goes through all of them and they must
+// agree; the two ceremonies take one door each, chosen by the case.
+async fn info_by_bound<A: Ctap2Api + ?Sized>(a: &A) -> passkey_types::ctap2::get_info::Response {
+    a.get_info().await
+}
+async fn make_by_bound<A: Ctap2Api + ?Sized>(a: &mut A, r: make_credential::Request) -> Result<make_credential::Response, passkey_types::ctap2::StatusCode> {
+    a.make_credential(r).await
+}
+async fn get_by_bound<A: Ctap2Api + ?Sized>(a: &mut A, r: get_assertion::Request) -> Result<get_assertion::Response, passkey_types::ctap2::StatusCode> {
+    a.get_assertion(r).await
+}
+fn door(c: &Case) -> usize {
+    (c.cfg.outcome as usize + c.cfg.cap as usize + c.rp as usize + c.fault as usize + usize::from(c.memory_store) + usize::from(c.prf)) % 4
+}
+
 fn call<S>(c: &Case, store: S, via_trait: bool, list: Option<Vec<Vec<u8>>>, log: Log) -> String
 where
-    S: CredentialStore<PasskeyItem = Passkey> + Send + Sync,
+    S: CredentialStore<PasskeyItem = Passkey> + Send + Sync + 'static,
 {
     let cfg = &c.cfg;
     let uv = ScriptedUv {
@@ -255,8 +272,21 @@ where
     let prf = || AuthenticatorPrfInputs { eval: Some(AuthenticatorPrfValues { first: [3; 32], second: Some([4; 32]) }), eval_by_credential: None };
     match c.api.as_str() {
         "get_info" => {
-            let r = if via_trait { block_on(Ctap2Api::get_info(&auth)) } else { block_on(auth.get_info()) };
-            format!("{r:?}")
+            if !via_trait {
+                return format!("{:?}", block_on(auth.get_info()));
+            }
+            let r0 = format!("{:?}", block_on(Ctap2Api::get_info(&auth)));
+            let r1 = format!("{:?}", block_on(info_by_bound(&auth)));
+            let r2 = {
+                let d: &mut dyn Ctap2Api = &mut auth;
+                format!("{:?}", block_on(d.get_info()))
+            };
+            let boxed: Box<dyn Ctap2Api + Send + Sync> = Box::new(auth);
+            let r3 = format!("{:?}", block_on(boxed.get_info()));
+            if r1 != r0 || r2 != r0 || r3 != r0 {
+                return format!("THE-DOORS-TO-THE-TRAIT-DISAGREE qualified call: {r0} / generic bound: {r1} / &mut dyn: {r2} / Box<dyn>: {r3}");
+            }
+            r0
         }
         "make_credential" => {
             let ext = c.prf.then(|| make_credential::ExtensionInputs { hmac_secret: Some(true), hmac_secret_mc: None, prf: Some(prf()) });
@@ -267,7 +297,22 @@ where
                     d.ty = passkey_types::webauthn::PublicKeyCredentialType::Unknown;
                 }
             }
-            let r = if via_trait { block_on(Ctap2Api::make_credential(&mut auth, req)) } else { block_on(auth.make_credential(req)) };
+            let r = if !via_trait {
+                block_on(auth.make_credential(req))
+            } else {
+                match door(c) {
+                    0 => block_on(Ctap2Api::make_credential(&mut auth, req)),
+                    1 => block_on(make_by_bound(&mut auth, req)),
+                    2 => {
+                        let d: &mut dyn Ctap2Api = &mut auth;
+                        block_on(d.make_credential(req))
+                    }
+                    _ => {
+                        let mut boxed: Box<dyn Ctap2Api + Send + Sync> = Box::new(auth);
+                        block_on(boxed.make_credential(req))
+                    }
+                }
+            };
             match r {
                 Err(e) => {
                     // the status *value* is compared (two values share byte 0x00)
@@ -290,7 +335,22 @@ where
                     d.ty = passkey_types::webauthn::PublicKeyCredentialType::Unknown;
                 }
             }
-            let r = if via_trait { block_on(Ctap2Api::get_assertion(&mut auth, req)) } else { block_on(auth.get_assertion(req)) };
+            let r = if !via_trait {
+                block_on(auth.get_assertion(req))
+            } else {
+                match door(c) {
+                    0 => block_on(Ctap2Api::get_assertion(&mut auth, req)),
+                    1 => block_on(get_by_bound(&mut auth, req)),
+                    2 => {
+                        let d: &mut dyn Ctap2Api = &mut auth;
+                        block_on(d.get_assertion(req))
+                    }
+                    _ => {
+                        let mut boxed: Box<dyn Ctap2Api + Send + Sync> = Box::new(auth);
+                        block_on(boxed.get_assertion(req))
+                    }
+                }
+            };
             match r {
                 Err(e) => {
                     // the status *value* is compared (two values share byte 0x00)
@@ -564,7 +624,7 @@ pub fn run(ctx: &Ctx) -> Result<Run, String> {
     }
     let mut run = Run::from_stats(
         "model_checking",
-        "differential enumeration: every configuration of the C04 product at CTAP2 level (operation, rk/up/uv, verification capability, validation outcome, pin-auth) x 4 store contents x {contract store, Arc<Mutex<MemoryStore>>} x PRF extension on/off x descriptor type {public-key, unknown}, store failures of find / save / update with seven status *values* (incl. Ctap1(Success), which shares byte 0x00 with Ctap2(Ok)), a sloppy store that lists every credential of the RP whatever ids are asked for, 37 other relying-party names (47..1024 bytes, five multi-byte characters repeated at every byte phase so that every byte offset up to 300 falls inside a character, empty, upper case, trailing dot, NUL), user handles / user ids of 900 and 4000 bytes (responses beyond 1 KiB / 4 KiB), repetition histories (one of eight granted / user-denied / dropped ceremonies 8, 9, 17 and 33 times in a row on one authenticator, then each of them as a probe, against fresh authenticators), a slow user (the user step suspends once and the thread's clock - virtual, the harness's own clock_gettime - advances by 11 s, 31 s, an hour, 25 hours while it is pending), and getInfo for every capability combination x six configured transports lists (default, empty, one, a repeated one, three with a repetition, five), plus all pairs (thorough: triples) of operations on ONE authenticator with a capability change in between (verification / presence / store capability), each run once through the inherent method and once through <Authenticator as Ctap2Api> on identically seeded authenticators inside isolated worker processes (8 MiB stack, 30 s watchdog); compared: result (status byte or full response incl. RFC 6979 signature bytes; fresh ids/keys normalised), store snapshot, store/user-validation call log. Non-trivial = distinct case whose direct call reached a verdict",
+        "differential enumeration: every configuration of the C04 product at CTAP2 level (operation, rk/up/uv, verification capability, validation outcome, pin-auth) x 4 store contents x {contract store, Arc<Mutex<MemoryStore>>} x PRF extension on/off x descriptor type {public-key, unknown}, store failures of find / save / update with seven status *values* (incl. Ctap1(Success), which shares byte 0x00 with Ctap2(Ok)), a sloppy store that lists every credential of the RP whatever ids are asked for, 37 other relying-party names (47..1024 bytes, five multi-byte characters repeated at every byte phase so that every byte offset up to 300 falls inside a character, empty, upper case, trailing dot, NUL), user handles / user ids of 900 and 4000 bytes (responses beyond 1 KiB / 4 KiB), repetition histories (one of eight granted / user-denied / dropped ceremonies 8, 9, 17 and 33 times in a row on one authenticator, then each of them as a probe, against fresh authenticators), a slow user (the user step suspends once and the thread's clock - virtual, the harness's own clock_gettime - advances by 11 s, 31 s, an hour, 25 hours while it is pending), and getInfo for every capability combination x six configured transports lists (default, empty, one, a repeated one, three with a repetition, five), plus all pairs (thorough: triples) of operations on ONE authenticator with a capability change in between (verification / presence / store capability), each run once through the inherent method and once through the trait (getInfo through four doors that must agree - qualified call, generic bound, &mut dyn, Box<dyn Ctap2Api + Send + Sync>; the ceremonies through one of the four, chosen by the case) on identically seeded authenticators inside isolated worker processes (8 MiB stack, 30 s watchdog); compared: result (status byte or full response incl. RFC 6979 signature bytes; fresh ids/keys normalised), store snapshot, store/user-validation call log. Non-trivial = distinct case whose direct call reached a verdict",
         true,
         stats,
     );
